@@ -624,7 +624,11 @@ def build_api_case(entry, seed):
     S, B, Mg, T, Dg, A = mods()
     r = random.Random(seed)
     g = KGen(r)
-    metas_ = [Metadata(country="US"), Metadata(country="DE"), Metadata(country="US", currency="EUR")]
+    fd = r.choice([{}, {}, {"note": None}, {"note": None, "zero": 0, "empty": ""}, {"off": False, "memo": None}])
+    fl = r.choice([{}, {}, {"cov": None}, {"cov": None, "n": 0}])
+    metas_ = [Metadata(country="US", details=dict(fd), loss_details=dict(fl)),
+              Metadata(country="DE", details=dict(fd), loss_details=dict(fl)),
+              Metadata(country="US", currency="EUR", details=dict(fd), loss_details=dict(fl))]
     ms = metas_[: r.choice([1, 1, 2])]
     if entry == "summarize" and r.random() < 0.15:
         ms = [metas_[0], metas_[2]]                       # inconsistent currency: TriangleError
@@ -1070,6 +1074,8 @@ def run(ctx):
             seen_ops.add(name)
         if rec["info"]:
             ctx.hist("monitor-triangle:" + rec["info"].get("shape", "?"))
+            if rec["info"].get("falsy_details"):
+                ctx.hist("monitor-triangle:details/loss_details with None or falsy values")
             if rec["info"].get("n_cells", 0) >= 2 or any(o.startswith("raised") for _, o in rec["trace"]):
                 ctx.nontriv(("monitor", case["seed"], tuple(case.get("ops") or []), case.get("length")))
         for v in viol:
